@@ -1014,6 +1014,68 @@ class TreeSim(WorldBase):
             return None
         return ["op", "orphan", {"h": g.randrange(1 << 16), "c": g.randrange(4)}]
 
+    def op_regrow(self, a, targets):
+        """use a source of unknown extent, let it grow, use it again (C05): a tensor without a declared shape whose
+        leaf rank is declared uncompressed presents [0, largest coordinate + 1) *at the time of each loop*"""
+        sl = self.slot(a["slot"])
+        self.need_unfrozen(a["slot"])
+        if sl.free or a["slot"] in self.nonplain or sl.depth < 1:
+            raise Skip("plain tensors only")
+        if sl.t.getShape(authoritative=True) is not None:
+            raise Skip("declared shape")
+        pre = dec_point(a.get("prefix", []))
+        if len(pre) != sl.depth - 1:
+            raise Skip("leaf fiber")
+        af = ob.find_fiber(sl.root, pre)
+        if af is None or not af.coords or any(not isinstance(c, int) or isinstance(c, bool) for c in af.coords):
+            raise Skip("leaf fiber with int coordinates")
+        rank = af.getOwner()
+        if rank is None or rank.getFormat() != "U":
+            raise Skip("uncompressed rank")
+        targets.add(a["slot"])
+        rid = str(sl.t.getRankIds()[-1])
+
+        def once(tag):
+            z = Tensor(rank_ids=[rid])
+            seen = []
+            for c, (zr, av) in z.getRoot() << af:
+                seen.append(c)
+                if Payload.get(av) != sl.default:
+                    zr <<= Payload.get(av)
+            want = list(range(0, max(af.coords) + 1))
+            if seen != want:
+                self.V("C05", "C05.offered-coordinates", "regrow",
+                       f"{tag} loop over the uncompressed source at {pre} (coords {af.coords}, no declared shape) offered "
+                       f"{seen}, its active range is {want[0]}..{want[-1]}")
+            wantc = {(c,): Payload.get(p) for c, p in zip(af.coords, af.payloads) if Payload.get(p) != sl.default}
+            if ob.content(z.getRoot(), sl.default) != wantc:
+                self.V("C05", "C05.result-content", "regrow",
+                       f"{tag} loop: copy of the source is {ob.content(z.getRoot(), sl.default)}, the source holds {wantc}")
+        try:
+            once("first")
+            top = max(af.coords) + 1 + a.get("grow", 1)
+            r = sl.t.getPayloadRef(*(tuple(pre) + (top,)))
+            r <<= a.get("v", 1)
+            once("second")
+        except Violation:
+            raise
+        except Exception as e:
+            return self.unexpected("C05", "regrow", e)
+        self.probe("regrow_checked")
+        return {}        # the slot's content model follows the tree (the growth is this operation's own write)
+
+    def gen_regrow(self, g):
+        c = [s for s, sl in self.slots.items() if sl.origin == "noshape" and s not in self.nonplain and not self.frozen(s)
+             and sl.depth >= 1 and sl.t.ranks[-1].getFormat() == "U"]
+        if not c:
+            return None
+        s = g.choice(c)
+        sl = self.slots[s]
+        pre = self.existing_prefix(g, sl, sl.depth - 1)
+        if pre is None:
+            return None
+        return ["op", "regrow", {"slot": s, "prefix": enc_point(pre), "grow": g.randint(0, 3), "v": self.nextval()}]
+
     def op_clear(self, a, targets):
         sl, f, level, leaf = self._mut(a, targets)
         try:
@@ -2196,7 +2258,7 @@ BASE_WEIGHTS = {
     "C03": {"r0": 2, "ref": 8, "hw": 5, "posref": 3, "get": 8, "getpos": 3, "append": 0.5, "setitem": 0.7, "clear": 0.3,
             "populate": 0.7, "descend": 2, "updp": 0.3, "fimul": 0.3, "filshift": 0.3, "new_op": 0.3},
     "C05": {"vr": 1.0, "populate": 8, "descend": 10, "ref": 3, "hw": 1, "get": 3, "setitem": 1, "clear": 0.3, "filshift": 0.5,
-            "fimul": 0.5, "rotrav": 0.5, "new_op": 0.7},
+            "fimul": 0.5, "rotrav": 0.5, "new_op": 0.7, "regrow": 0.6},
     "C10": dict(ALLMUT, get=2, getpos=1, rotrav=2, vr=10, ro=10, render=0.2, r0=0.5),
 }
 FOCUS = {
